@@ -402,6 +402,14 @@ def op_cases(rng, n, maxcmds=7):
         f = gen_file(rng, long=(rng.below(10) == 0))
         rows, cols = geometry(rng)
         parts = []
+        if i % 15 == 6:
+            # line-wise changes in both directions over lines of different indentation, auto-indent on and off:
+            # the replacement takes the indentation of the first line of the region
+            f = b"top\n\tone\n\t\t\ttwo\n  three\n\t four\nend\n"
+            parts = [rng.pick([b":se ai\n", b":se ai\n", b":se noai\n", b""]), rng.pick([b"2G", b"3G", b"4G", b"5G", b"G"]),
+                     rng.pick([b"c", b"2c", b"\"ac"]) + rng.pick([b"k", b"-", b"j", b"+", b"c", b"1G", b"G", b"{", b"}", b"2k", b"'a"]), rng.pick([b"xyz", b"a\nb", b" q", b""]) + b"\x1b",
+                     rng.pick([b"", b"u", b".", b"j."])]
+            out.append(case(f, b"".join(parts), rows, cols)); continue
         for _ in range(1 + rng.below(maxcmds)):
             k = rng.below(20)
             c = rng.pick([b"", b"", b"", b"2", b"3", b"5", b"12"])
